@@ -1754,4 +1754,173 @@ example : JsonStd jsonExample ∧ Plain jsonExample := by
   · simp [jsonExample, JsonStd, JsonStdPairs, JsonStdList, StdScalarMro, strV, intV, noneV, Scalar.ofStr, Scalar.none]
   · simp [jsonExample, Plain, PlainPairs, PlainList, IsScalarVal, valEqc, strV, intV, noneV, Scalar.ofStr, Scalar.none]
 
+/-! ### [audit] additional non-vacuity / sharpness examples (added by the auditor; nothing above was changed) -/
+
+-- [audit] non-vacuity: a store with a dict, a tuple, a bool, None, a twice-referenced list (sharing) and
+-- nesting depth 3 satisfies ALL hypotheses of `to_obj_build`, `entry_points_agree` (incl. the json part) and `copy_eq`
+def aStr (x : String) : Cell := ⟨["str", "object"], .scalar (Scalar.ofStr x)⟩
+def aNone : Cell := ⟨["NoneType", "object"], .scalar Scalar.none⟩
+def aTrue : Cell := ⟨["bool", "int", "object"], .scalar ⟨.bool, "True", "n:1/1", "True", some (1, 1), none⟩⟩
+def aDict (items : List (Nat × Nat)) : Cell := ⟨["dict", "object"], .dict items⟩
+def aTuple (items : List Nat) : Cell := ⟨["tuple", "object"], .tuple items⟩
+def aSet (items : List Nat) : Cell := ⟨["set", "object"], .set items⟩
+
+/-- `L = [(1, True), 1]; root = {"a": L, "b": L, "c": None}` -/
+def jsonStore : Store :=
+  [aDict [(4, 1), (5, 1), (6, 7)], listCell [2, 3], aTuple [3, 8], intCell, aStr "a", aStr "b", aStr "c", aNone, aTrue]
+
+def rkJ : Ref → Nat
+  | .obj 0 => 3
+  | .obj 1 => 2
+  | .obj 2 => 1
+  | _ => 0
+
+theorem ranked_jsonStore (b : BKind) : Ranked b jsonStore rkJ := by
+  have e0 : expand b jsonStore (.obj 0) = [.obj 4, .obj 5, .obj 6, .obj 1, .obj 1, .obj 7] := by cases b <;> decide
+  have e1 : expand b jsonStore (.obj 1) = [.obj 2, .obj 3] := by cases b <;> decide
+  have e2 : expand b jsonStore (.obj 2) = [.obj 3, .obj 8] := by cases b <;> decide
+  have e3 : ∀ i, 3 ≤ i → i < 9 → expand b jsonStore (.obj i) = [] := by
+    intro i h1 h2
+    have : i = 3 ∨ i = 4 ∨ i = 5 ∨ i = 6 ∨ i = 7 ∨ i = 8 := by omega
+    rcases this with h | h | h | h | h | h <;> subst h <;> cases b <;> decide
+  intro x c h
+  match x with
+  | .istr str => rw [expand_istr] at h; simp at h
+  | .obj 0 => rw [e0] at h; simp at h; rcases h with h | h | h | h | h <;> subst h <;> simp [rkJ]
+  | .obj 1 => rw [e1] at h; simp at h; rcases h with h | h <;> subst h <;> simp [rkJ]
+  | .obj 2 => rw [e2] at h; simp at h; rcases h with h | h <;> subst h <;> simp [rkJ]
+  | .obj (n + 3) =>
+    by_cases hn : n + 3 < 9
+    · rw [e3 (n + 3) (by omega) hn] at h; simp at h
+    · rw [expand_oob _ _ _ (by simp [jsonStore]; omega)] at h; simp at h
+
+theorem std_jsonStore (b : BKind) : StdStore b jsonStore := by
+  intro i c h
+  match i with
+  | 0 => simp [jsonStore, aDict] at h; subst h; cases b <;> exact ⟨by decide, by decide⟩
+  | 1 => simp [jsonStore, listCell] at h; subst h; cases b <;> exact ⟨by decide, by decide⟩
+  | 2 => simp [jsonStore, aTuple] at h; subst h; cases b <;> exact ⟨by decide, by decide⟩
+  | 3 => simp [jsonStore, intCell] at h; subst h; cases b <;> exact ⟨by decide, by decide⟩
+  | 4 => simp [jsonStore, aStr] at h; subst h; cases b <;> exact ⟨by decide, by decide⟩
+  | 5 => simp [jsonStore, aStr] at h; subst h; cases b <;> exact ⟨by decide, by decide⟩
+  | 6 => simp [jsonStore, aStr] at h; subst h; cases b <;> exact ⟨by decide, by decide⟩
+  | 7 => simp [jsonStore, aNone] at h; subst h; cases b <;> exact ⟨by decide, by decide⟩
+  | 8 => simp [jsonStore, aTrue] at h; subst h; cases b <;> exact ⟨by decide, by decide⟩
+  | n + 9 => simp [jsonStore] at h
+
+def jsonStoreVal : PyVal :=
+  let one : PyVal := .scalar ["int", "object"] ⟨.int, "1", "n:1/1", "1", some (1, 1), none⟩
+  let tru : PyVal := .scalar ["bool", "int", "object"] ⟨.bool, "True", "n:1/1", "True", some (1, 1), none⟩
+  let l : PyVal := .list ["list", "object"] [.tuple ["tuple", "object"] [one, tru], one]
+  .dict ["dict", "object"] [(strV "a", l), (strV "b", l), (strV "c", noneV)]
+
+theorem unfold_jsonStore : unfold jsonStore 4 (.obj 0) = some jsonStoreVal := by rfl
+
+theorem plain_jsonStoreVal : Plain jsonStoreVal ∧ JsonLike jsonStoreVal ∧ JsonStd jsonStoreVal := by
+  refine ⟨?_, ?_, ?_⟩
+  · simp [jsonStoreVal, Plain, PlainPairs, PlainList, IsScalarVal, valEqc, strV, noneV, Scalar.ofStr, Scalar.none]
+  · simp [jsonStoreVal, JsonLike, JsonLikePairs, JsonLikeList, JsonKey, JsonScalar, DistinctKeys, keyEqc, strV, noneV,
+      numOrStr, Scalar.ofStr]
+  · simp [jsonStoreVal, JsonStd, JsonStdPairs, JsonStdList, StdScalarMro, strV, noneV, Scalar.ofStr, Scalar.none]
+
+-- the main theorems instantiated on it (every option `o`)
+example (o : Opts) := to_obj_build (b := .pyobj) o (ranked_jsonStore _) (std_jsonStore _) 0 4 _ unfold_jsonStore plain_jsonStoreVal.1
+example (o : Opts) : ∃ fuel t, (∀ fuel' ≥ fuel, buildTree .basic o jsonStore fuel' (.obj 0) = .ok t ∧
+    buildTree .pyobj o jsonStore fuel' (.obj 0) = .ok t) ∧ jsonBuild o jsonStoreVal = .ok t := by
+  obtain ⟨f, t, h1, h2⟩ := entry_points_agree o (ranked_jsonStore _) (ranked_jsonStore _) (std_jsonStore _) (std_jsonStore _)
+    0 4 _ unfold_jsonStore plain_jsonStoreVal.1
+  exact ⟨f, t, h1, h2 plain_jsonStoreVal.2.1 plain_jsonStoreVal.2.2⟩
+example (o : Opts) : ∃ t fuel, ∀ fuel' ≥ fuel, copyTree fuel' t = .ok (reset t) ∧ Tree.pyEq (reset t) t = true ∧
+    toObj (reset t) = toObj t := by
+  obtain ⟨t, _, hb, _⟩ := buildVal_toObj o jsonStoreVal plain_jsonStoreVal.1
+  exact ⟨t, copy_eq o jsonStoreVal plain_jsonStoreVal.1 t hb⟩
+
+-- [audit] non-vacuity: standard MROs in both generated tables, a store with a set, mutual / dict-valued cycles,
+-- and a witness that the `∃ be, e = .build be` disjunct of `cycle_detected` is needed
+
+-- every standard MRO dispatches the standard way in BOTH generated tables
+example (b : BKind) : StdCell b ⟨["bool", "int", "object"], .scalar ⟨.bool, "True", "n:1/1", "True", some (1, 1), none⟩⟩ := by
+  cases b <;> exact ⟨by decide, by decide⟩
+example (b : BKind) : StdCell b ⟨["float", "object"], .scalar ⟨.float, "0x1.8p+0", "n:3/2", "1.5", some (3, 2), none⟩⟩ := by
+  cases b <;> exact ⟨by decide, by decide⟩
+example (b : BKind) : StdCell b ⟨["bytes", "object"], .scalar ⟨.bytes, "61", "b:61", "b'a'", none, some "a"⟩⟩ := by
+  cases b <;> exact ⟨by decide, by decide⟩
+example (b : BKind) : StdCell b ⟨["frozenset", "object"], .set [1]⟩ := by
+  cases b <;> exact ⟨by decide, by decide⟩
+example (b : BKind) : StdCell b ⟨["set", "object"], .set [1]⟩ := by
+  cases b <;> exact ⟨by decide, by decide⟩
+
+/-- `D = {1: {1, "a"}}; root = [D, D]` -/
+def setStore : Store := [listCell [1, 1], aDict [(3, 2)], aSet [3, 4], intCell, aStr "a"]
+def rkS : Ref → Nat
+  | .obj 0 => 3
+  | .obj 1 => 2
+  | .obj 2 => 1
+  | _ => 0
+theorem ranked_setStore (b : BKind) : Ranked b setStore rkS := by
+  have e0 : expand b setStore (.obj 0) = [.obj 1, .obj 1] := by cases b <;> decide
+  have e1 : expand b setStore (.obj 1) = [.obj 3, .obj 2] := by cases b <;> decide
+  have e2 : expand b setStore (.obj 2) = [.obj 3, .obj 4] := by cases b <;> decide
+  have e3 : expand b setStore (.obj 3) = [] := by cases b <;> decide
+  have e4 : expand b setStore (.obj 4) = [] := by cases b <;> decide
+  intro x c h
+  match x with
+  | .istr str => rw [expand_istr] at h; simp at h
+  | .obj 0 => rw [e0] at h; simp at h; subst h; simp [rkS]
+  | .obj 1 => rw [e1] at h; simp at h; rcases h with h | h <;> subst h <;> simp [rkS]
+  | .obj 2 => rw [e2] at h; simp at h; rcases h with h | h <;> subst h <;> simp [rkS]
+  | .obj 3 => rw [e3] at h; simp at h
+  | .obj 4 => rw [e4] at h; simp at h
+  | .obj (n + 5) => rw [expand_oob _ _ _ (by simp [setStore])] at h; simp at h
+theorem std_setStore (b : BKind) : StdStore b setStore := by
+  intro i c h
+  match i with
+  | 0 => simp [setStore, listCell] at h; subst h; cases b <;> exact ⟨by decide, by decide⟩
+  | 1 => simp [setStore, aDict] at h; subst h; cases b <;> exact ⟨by decide, by decide⟩
+  | 2 => simp [setStore, aSet] at h; subst h; cases b <;> exact ⟨by decide, by decide⟩
+  | 3 => simp [setStore, intCell] at h; subst h; cases b <;> exact ⟨by decide, by decide⟩
+  | 4 => simp [setStore, aStr] at h; subst h; cases b <;> exact ⟨by decide, by decide⟩
+  | n + 5 => simp [setStore] at h
+theorem plain_setStore : ∃ v, unfold setStore 4 (.obj 0) = some v ∧ Plain v :=
+  ⟨_, rfl, by simp [Plain, PlainList, PlainPairs, IsScalarVal, valEqc, Scalar.ofStr]⟩
+example (o : Opts) : ∃ fuel t y v, (∀ fuel' ≥ fuel, buildTree .basic o setStore fuel' (.obj 0) = .ok t) ∧
+    toObj t = .ok y ∧ unfold setStore 4 (.obj 0) = some v ∧ ObjEquiv y (normalise v) := by
+  obtain ⟨v, hu, hp⟩ := plain_setStore
+  obtain ⟨f, t, y, h1, _, h3, h4⟩ := to_obj_build (b := .basic) o (ranked_setStore _) (std_setStore _) 0 4 v hu hp
+  exact ⟨f, t, y, v, h1, h3, hu, h4⟩
+
+/-- mutual cycle at depth 2 through a tuple: `a = [t, 1]; t = (a,)` -/
+def mutCycle : Store := [listCell [1, 2], aTuple [0], intCell]
+theorem listStore_mutCycle (b : BKind) : ListStore b mutCycle := by
+  intro i c h
+  match i with
+  | 0 => simp [mutCycle, listCell] at h; subst h
+         exact ⟨by cases b <;> exact ⟨by decide, by decide⟩, .inr ⟨[1, 2], .inl rfl, by simp [mutCycle]⟩⟩
+  | 1 => simp [mutCycle, aTuple] at h; subst h
+         exact ⟨by cases b <;> exact ⟨by decide, by decide⟩, .inr ⟨[0], .inr rfl, by simp [mutCycle]⟩⟩
+  | 2 => simp [mutCycle, intCell] at h; subst h
+         exact ⟨by cases b <;> exact ⟨by decide, by decide⟩, .inl ⟨_, rfl⟩⟩
+  | n + 3 => simp [mutCycle] at h
+theorem hasCycle_mutCycle : HasCycle .basic mutCycle (.obj 0) :=
+  ⟨.obj 0, .refl _, .obj 1, by decide, .step (c := .obj 0) (by decide) (.refl _)⟩
+example := cycle_detected_lists .basic dflt mutCycle rfl rfl (listStore_mutCycle _) 0 (by decide) hasCycle_mutCycle
+example := cycle_placeholder_lists .basic { dflt with ign := true } mutCycle rfl rfl (listStore_mutCycle _) 0 (by decide) hasCycle_mutCycle
+example : buildTree .basic dflt mutCycle 20 (.obj 0) = .error .cycle := by rfl
+
+/-- cycle through a dict VALUE and a tuple, two levels below the root: `d = {"k": (root, d)}; root = [d]` -/
+def dictCycle : Store := [listCell [1], aDict [(3, 2)], aTuple [0, 1], aStr "k"]
+theorem hasCycle_dictCycle : HasCycle .basic dictCycle (.obj 0) :=
+  ⟨.obj 1, .step (c := .obj 1) (by decide) (.refl _), .obj 2, by decide, .step (c := .obj 1) (by decide) (.refl _)⟩
+example : buildTree .basic dflt dictCycle 30 (.obj 0) = .error .cycle := by rfl
+example := cycle_detected .basic dflt dictCycle rfl rfl (.obj 0) hasCycle_dictCycle
+
+/-- the `∃ be, e = .build be` disjunct of `cycle_detected` is really needed: `root = [A(), root]` under BasicBuilder
+raises NotImplementedError for `A()` before the cycle is closed -/
+def errFirst : Store := [listCell [1, 0], ⟨["A", "object"], .custom "A" []⟩]
+example : HasCycle .basic errFirst (.obj 0) := ⟨.obj 0, .refl _, .obj 0, by decide, .refl _⟩
+example : buildTree .basic dflt errFirst 30 (.obj 0) = .error (.build .notImplemented) := by rfl
+
+-- the function the stream runs for the json entry (`jsonBuildStore`) vs the function of the theorems (`jsonBuild`)
+example : jsonBuildStore dflt dagStore (.obj 0) = (unfold dagStore 5 (.obj 0)).elim (.error .recursion) (jsonBuild dflt) := by rfl
+
 end GtModel.C18
